@@ -800,6 +800,19 @@ func runRestart(c *Case, r *mon.Rec, rng *rand.Rand) {
 		e0 := s.Shutdown(sctx0)
 		sc0()
 		r.Cover("shutdown", fmt.Sprintf("first-attempt-before-retry: %v", e0))
+		r.Eval(1)
+		if e0 == nil {
+			// the handler is still blocked (the harness has not released it): a Shutdown that ran out of time under it has
+			// not shut anything down gracefully and must not say so
+			w0 := 0
+			for _, e := range rcA.EventsCopy() {
+				if e.Op == "write" {
+					w0 += e.N
+				}
+			}
+			r.Violate(c, "inflight-reply-after-shutdown-returned", a, fmt.Sprintf("restart: Shutdown with a 50 ms deadline returned nil while the handler of a started request was still blocked (%d of the %d reply bytes written)", w0, len(wantA)))
+			return
+		}
 	}
 	var shutErr error
 	var shutRet int64
@@ -906,6 +919,9 @@ func run(ci any, r *mon.Rec) {
 			sc.rejected[fmt.Sprintf("client-%d", i)] = true
 		}
 	}
+	if c.InAccept > 0 && c.Seed%2 == 0 {
+		sc.rejected[fmt.Sprintf("client-%d", c.InAccept-1)] = true
+	}
 	s := &server.Server{WriteTimeout: 2 * time.Second} // (the default 50 ms write timeout is scheduling noise on a loaded machine)
 	if c.Mask&1 != 0 {
 		s.OnServeFunc = func(addr net.Addr) { _ = addr.String() }
@@ -930,6 +946,15 @@ func run(ci any, r *mon.Rec) {
 				}
 			}
 			if e.rejected {
+				if c.InAccept > 0 && nth == c.InAccept {
+					// the callback that was running when the context ended refuses its connection because of that (a
+					// callback doing a lookup under the serve context returns ctx.Err()): rejected is rejected - closed
+					select {
+					case <-ctx.Done():
+						return ctx.Err()
+					case <-time.After(2 * time.Second):
+					}
+				}
 				return errors.New("verif: rejected by accept callback")
 			}
 			if c.Terminal == "cancel" || c.Terminal == "both" {
